@@ -605,7 +605,8 @@ class C19(DiffProperty):
     cxx_libs = ["mpt++", "mptcore"]     # value's copy constructor (copy of a source) lives in mpt++/value.cpp
 
     def warm(self):
-        DiffProperty.warm(self)
+        vcheck.build_harness(self.harness_src, self.libs, extra=self.extra_harness_flags)
+        vcheck.build_model(self.mlname, self.driver, self.extract_vo)
         vcheck.build_harness(self.cxx_harness_src, self.cxx_libs)
 
     def evaluate(self, cases, workdir, tagsuffix=""):
